@@ -358,13 +358,10 @@ class SGen(coregen.Gen):
         # (a lambda bound inside a block in operand position next to `self` trips the type checker: templates bind none)
         tctx = dict(ctx, vars=[(h, F, False) for h in holes], self_type=None, used_self=[False], in_lambda=True, holes=set(holes))
         n = self.r.below(3) if stmts is None else stmts
-        # known finding F17: an `if` anywhere inside a tuple component makes mirgen panic (alloc_aggregates inserts into
-        # the wrong basic block): templates expanded inside a tuple literal are `if`-free (depth 0)
-        body = self.block(F, 0 if ctx.get("in_tuple") else max(1, d), tctx, nstmts=n)
+        # (finding F17 — an `if` inside a tuple component or in operand position crashed mirgen / the bytecode generator —
+        # is repaired in /repo 4905863: templates may be `if`s anywhere)
+        body = self.block(F, max(1, d), tctx, nstmts=n)
         self.in_macro -= 1
-        # known finding F17 (an `if` in operand position makes the bytecode generator panic): the value of a template
-        # is never a bare `if`; its result is bound by `let` first
-        body = _append_tail(body, lambda t: t, self.fresh)
         # every hole is used at least once
         for h in holes:
             if not _mentions(body, h):
@@ -504,10 +501,6 @@ def _mentions(n, x):
 def _append_tail(n, f, fresh):
     if n.kind in ("let", "lett", "set"):
         return Node(n.kind, *(list(n.a[:-1]) + [_append_tail(n.a[-1], f, fresh)]))
-    if n.kind == "if":
-        # keep `if` results bound by `let` before use
-        w = fresh()
-        return Node("let", w, n, f(Node("var", w)))
     return f(n)
 
 
